@@ -63,6 +63,85 @@ func (h *hist) mergeValue(old, v *model.Node) *model.Node {
 	return v.Copy()
 }
 
+// copyTree copies a subtree (SetChild of a parented config stores a copy); the
+// copy of a nil that came from nil merged onto nil is such a nil as well.
+func (h *hist) copyTree(n *model.Node) *model.Node {
+	if n == nil {
+		return nil
+	}
+	m := &model.Node{Kind: n.Kind, Prim: n.Prim, HasA: n.HasA}
+	if h.nilOnNil[n] {
+		h.nilOnNil[m] = true
+	}
+	if n.D != nil {
+		m.D = make(map[string]*model.Node, len(n.D))
+		for k, v := range n.D {
+			m.D[k] = h.copyTree(v)
+		}
+	}
+	if n.A != nil {
+		m.A = make([]*model.Node, len(n.A))
+		for i, v := range n.A {
+			m.A[i] = h.copyTree(v)
+		}
+	}
+	return m
+}
+
+// hiddenFromParent asks the parent, not the handle, about what was just
+// written through the handle t: the child obtained afresh from the root at the
+// handle's place must hold as many settings as the tree holds there, and each
+// of the addresses written (relative to t) must exist. These questions do not
+// go through the canonical form (which can not tell a nil from an empty
+// container), so a lost write of an empty container or a lost removal of an
+// empty element shows as well. Returns a description of the deviation or "".
+func (h *hist) hiddenFromParent(t *handle, mustHave [][]model.Fld) string {
+	path, ok := pathTo(h.root.n, t.n)
+	if !ok {
+		return ""
+	}
+	fresh := h.libAt(path)
+	h.res.Eval(1)
+	h.res.Ev("writes_through_handle_asked_through_parent", 1)
+	if fresh == nil {
+		return "after a write through handle " + t.desc + " the parent has no container at " + model.PathString(path)
+	}
+	if n, err := fresh.CountField(""); err != nil || n != len(t.n.D)+len(t.n.A) {
+		return "after a write through handle " + t.desc + " the parent counts " + strconv.Itoa(n) + " settings at " + model.PathString(path) + ", the tree holds " + strconv.Itoa(len(t.n.D)+len(t.n.A)) + " (" + t.n.String() + ")"
+	}
+	for _, fs := range mustHave {
+		if mh, _ := model.Has(t.n, fs); !mh {
+			continue
+		}
+		cur := fresh
+		found := true
+		for i, f := range fs {
+			var err error
+			last := i == len(fs)-1
+			switch {
+			case last && f.IsI:
+				found, err = cur.Has("", f.Idx)
+			case last:
+				found, err = cur.Has(f.Name, -1)
+			case f.IsI:
+				cur, err = cur.Child("", f.Idx)
+			default:
+				cur, err = cur.Child(f.Name, -1)
+			}
+			if err != nil || cur == nil {
+				found = false
+			}
+			if !found {
+				break
+			}
+		}
+		if !found {
+			return "written through handle " + t.desc + " at " + model.PathString(fs) + ", but asked through the parent (" + model.PathString(append(append([]model.Fld{}, path...), fs...)) + ") it is not there"
+		}
+	}
+	return ""
+}
+
 // pathTo finds target below root by identity.
 func pathTo(root, target *model.Node) ([]model.Fld, bool) {
 	if root == target {
@@ -130,23 +209,36 @@ func (h *hist) libAt(path []model.Fld) *ucfg.Config {
 // holds at the handle's place (Child of a container returns the stored object
 // itself), and was the place merged over before?
 func (h *hist) staleClass(x *handle, base string) string {
-	const ofNil = "write-through-child-of-nil-setting-not-visible-in-parent"
-	if x == h.root {
+	if x == nil || x == h.root {
 		return base
 	}
 	path, ok := pathTo(h.root.n, x.n)
 	if !ok {
 		return base
 	}
-	merged := h.underMerged(h.root.n, path, x.born)
 	if x.n.Kind == model.KSub && h.libAt(path) == x.c {
 		return base // the handle holds the very object the tree holds there
 	}
+	if x.ofNil {
+		// born of a nil setting and not the object the tree holds at its place:
+		// the library never attached it, whatever else happened in between
+		return sigChildOfNil
+	}
+	from, rel := h.root.n, path
+	if v := x.via; v != nil && v != h.root && v.n.Kind == model.KSub {
+		if vp, ok := pathTo(h.root.n, v.n); ok && len(vp) <= len(path) {
+			if h.libAt(vp) != v.c {
+				// obtained through a handle that is detached itself: same cause
+				return h.staleClass(v, base)
+			}
+			// the handle it was obtained through is still attached: whatever
+			// was merged into that one's place or above it detached nothing
+			from, rel = v.n, path[len(vp):]
+		}
+	}
 	switch {
-	case merged:
+	case h.underMerged(from, rel, x.born):
 		return "child-handle-detached-by-merge"
-	case x.ofNil:
-		return ofNil
 	case x.n.Kind != model.KSub:
 		return base
 	}
@@ -155,7 +247,7 @@ func (h *hist) staleClass(x *handle, base string) string {
 
 // wantCount is what CountField says for a node of the plain tree; lenient
 // reports that the statement does not pin the number down (0 or 1).
-func wantCount(v *model.Node) (want int, lenient bool) {
+func (h *hist) wantCount(v *model.Node) (want int, lenient bool) {
 	switch {
 	case v.Kind == model.KNil:
 		return 0, false
@@ -163,12 +255,28 @@ func wantCount(v *model.Node) (want int, lenient bool) {
 		return 1, false
 	case len(v.A) > 0:
 		return len(v.A), false
+	case len(v.D) == 0 && h.emptied[v]:
+		// a list whose elements were removed one by one is a list of 0 entries
+		h.res.Ev("countfield_of_list_emptied_by_remove", 1)
+		return 0, false
 	case len(v.D) == 0 || v.HasA:
 		// an empty container, or a dictionary that once was an empty list,
 		// counts 0 or 1 depending on how it came to be
 		return 0, true
 	}
 	return 1, false
+}
+
+// holderOf returns the container holding the setting addressed by fs below root.
+func holderOf(root *model.Node, fs []model.Fld) (*model.Node, bool) {
+	if len(fs) == 1 {
+		return root, root.IsSub()
+	}
+	n, e := model.Get(root, fs[:len(fs)-1])
+	if e != model.ENone || !n.IsSub() {
+		return nil, false
+	}
+	return n, true
 }
 
 // walkAddr spells the address of a random existing setting below t (depth 1-3)
